@@ -7,7 +7,7 @@ serializeOp (C11.ser) and compared by the class's operator== (C11.eq), unless th
 import re
 
 from verif import core
-from verif.tree import walk, walk_fn, show, strip, stmt_list
+from verif.tree import walk, walk_fn, show, strip, stmt_list, meth
 
 LEVEL = "other"
 
@@ -348,6 +348,44 @@ def run(chk):
     chk.extra["classes_out_of_scope"] = n_out
 
     run_split(chk, fx, ser, closure, units)
+
+    # ---- C11.rebind: process-local pointers that serializeOp re-establishes on unpack are re-established in EVERY instance
+    r_rb = chk.rule("C11.rebind", "a process-local pointer member that the owner's serializeOp re-binds after unpacking is re-bound in every instance: the re-binding call sits in range-for loops over the whole containers that hold the instances", floor=1)
+    for (cls_, mem_), ex in sorted(exempt.items()):
+        rb = ex.get("rebound")
+        if not rb:
+            continue
+        owner = rb["in"]
+        sfs = [f for f in ser.get(owner, []) if f.get("body")]
+        if not sfs:
+            raise core.AnalysisBroken("C11.rebind: %s::serializeOp not found" % owner)
+        found = False
+        for f in sfs:
+            for blk in [n for n in walk_fn(f) if n["k"] == "If" and "isSerializing" in show(n["cond"])]:
+                def search(n, loops):
+                    nonlocal found
+                    if n["k"] == "ForRange":
+                        search(n["body"], loops + [n])
+                        return
+                    m_ = meth(n)[0] if n["k"] in ("MCall", "Call") else None
+                    if m_ == rb["by"]:
+                        found = True
+                        ranges = [show(strip(l_["range"])) for l_ in loops]
+                        key = "%s::%s" % (cls_, mem_)
+                        whole = []
+                        for want, l_ in zip(rb["over"], loops[-len(rb["over"]):] if len(loops) >= len(rb["over"]) else []):
+                            r0 = strip(l_["range"])
+                            whole.append(r0["k"] in ("Mem", "Ref") and r0["n"] == want or (r0["k"] == "Mem" and r0["n"] == want))
+                        chk.instance(r_rb, key, sample=dict(member=key, rebound_by=rb["by"], loops=ranges, expected_over=rb["over"]))
+                        if len(loops) < len(rb["over"]) or not all(whole):
+                            chk.violation(r_rb, key, "%s::serializeOp re-binds %s (via %s) inside the loops %s; every instance lives in %s, so the call must sit in range-for loops over exactly those containers - instances that are skipped keep a null/stale pointer after unpacking (operator== differs, use dereferences it)" % (owner, key, rb["by"], ranges or "none", " x ".join(rb["over"])), f["file"], n["l"])
+                    for v in n.values():
+                        for y in (v if isinstance(v, list) else [v]):
+                            if isinstance(y, dict) and "k" in y:
+                                search(y, loops)
+                search(blk["then"], [])
+        if not found:
+            chk.violation(r_rb, "%s::%s" % (cls_, mem_), "%s::serializeOp no longer re-binds %s::%s after unpacking (no call to %s in its unpack block)" % (owner, cls_, mem_, rb["by"]), sfs[0]["file"], sfs[0]["l"])
 
     # stale exemptions are themselves reported (an exception that no longer matches anything)
     for k, e in exempt.items():
